@@ -375,6 +375,24 @@ theorem seeded_comparable_counterexample :
     (ifaceKeyOutcome wrapper = .panicUnhashable ∧ seededComparable wrapper = true) := by
   decide
 
+/-- a read-like map operation (index, comma-ok, delete) with an interface key of dynamic type `dyn` panics EXACTLY when
+    `dyn` is not comparable — whatever the state of the map: nil, empty or populated (the key is hashed before the map
+    is looked at) -/
+theorem lookup_panics_iff_unhashable (dyn : Ty) (m : MapState) (op : ReadOp) :
+    readOp dyn m op = none ↔ comparable dyn = false := by
+  simp only [readOp, hashStep, typComparable_eq_spec]
+  cases comparable dyn <;> simp
+
+/-- and when it does not panic, a nil map reads as empty -/
+theorem nil_map_read_misses (dyn : Ty) (op : ReadOp) (h : comparable dyn = true) : readOp dyn .nil op = some .miss := by
+  simp [readOp, hashStep, typComparable_eq_spec, h, helperStep]
+
+/-- COUNTEREXAMPLE for the rejected variant ("hash the key only if the map is non-nil"): on a nil map a slice-typed
+    dynamic key reads as a miss, for all three operations, where Go and the code panic -/
+theorem seeded_nil_read_counterexample (op : ReadOp) :
+    seededReadOp .slice .nil op = some .miss ∧ readOp .slice .nil op = none ∧ comparable .slice = false := by
+  cases op <;> decide
+
 end Hash
 
 end GV.Props.C15
